@@ -83,9 +83,11 @@ impl<T> ResourceStorage<T> {
 		self.resources.iter_mut()
 	}
 
+	/// Returns `true` if there are no resources in the arena
+	/// and none waiting to be added to it.
 	#[must_use]
 	pub fn is_empty(&self) -> bool {
-		self.resources.is_empty()
+		self.resources.is_empty() && self.new_resource_consumer.is_empty()
 	}
 }
 
